@@ -569,6 +569,13 @@ def replay(case):
     import tempfile
 
     res = ShardResult()
+    if case.get("part") == "L":
+        # hand-written battery: re-run it and keep the violations of this selector
+        check_same_name_levels(common.scratch_dir("C12r"), res, [])
+        vs = [v for v in res.violations if v["case"].get("selector") == case.get("selector")]
+        for v in vs:
+            print("PROBLEM:", str(v["why"])[:500])
+        return vs
     if case.get("part") == "A":
         from ptera import tools
 
